@@ -355,6 +355,10 @@ class Gen(object):
             order.append(E("title", self.attrs("title"), [T(s)] if s else []))
         for _ in range(d.below(3)):
             order.append(E("meta", [[None, "name", d.pick(["a", "description", "viewport"])], [None, "content", self.attr_value()]]))
+        if d.chance(1, 4):
+            # pragma directives other than the encoding declaration: nothing may take them for one
+            order.append(E("meta", [[None, "http-equiv", d.pick(["refresh", "X-UA-Compatible", "default-style", "Refresh", "content-security-policy", "content-language"])],
+                                    [None, "content", d.pick(["5; url=x", "IE=edge", "x", "default-src 'self'", "\xe9", "text/html; charset=koi8-r"])]]))
         if d.chance(1, 3):
             order.append(E("link", [[None, "rel", "stylesheet"], [None, "href", self.attr_value()]]))
         if d.chance(1, 5):
